@@ -927,7 +927,10 @@ class Check(PropertyCheck):
             frames = dec.feed(unhx(r["bytes_hex"]))
             if r["in"] is None: continue
             out.append(f"F={jo(frames)} U={jo(r['ups'])} Q={jo(r['q'])} M={jo(r['m'])} O={r['o']} B={jo(r['b'])} "
-                       f"X={1 if r['closed'] else 0}{1 if r['exc'] else 0}")
+                       f"X={1 if r['closed'] else 0}{1 if r['exc'] else 0}"
+                       # the hypotheses of the theorems (Good, Good2), evaluated by the model driver on every event the
+                       # real HttpStream handed to Http2Client: they must hold
+                       + (" G=11" if r["in"].startswith("c ") else ""))
         return [self._canon(x) for x in out]
 
     @staticmethod
